@@ -44,6 +44,16 @@ func critTime(dc *basket.DateCriteria, t time.Time) (time.Time, bool) {
 
 const magnitude = "9999999999999999999999999999.999999"
 
+// amounts whose value x 10^6 needs 35 and 40 significant digits (a Put of the whole amount must be
+// rejected: the token amount cannot be represented exactly), and 34-digit parts of them
+const (
+	big35     = "12345678901234567890123456789.123456"
+	big35part = "1234567890123456789012345678.123456"
+	big40     = "1234567890123456789012345678901234.123456"
+	big40part = "1234567890123456789012345678.901234"
+	nines35   = "99999999999999999999999999999.999999"
+)
+
 func runBasket(c Cfg) *Result {
 	// block times: some histories cross a year boundary exactly
 	n := c.N
@@ -177,9 +187,14 @@ func runBasket(c Cfg) *Result {
 	if pb != "" {
 		bioBatch = g.mkBatch(2, pb, date(2018, 1, 1), date(2019, 1, 1), true, nil, "other credit type", g.iss(0, "100", ""), g.iss(2, "100", ""))
 	}
-	big1 := ""
+	big1, bigA, bigB, bigC := "", "", "", ""
 	if n%6 == 5 {
-		big1 = g.mkBatch(0, p1, date(2017, 1, 1), date(2018, 1, 1), true, nil, "magnitude stream", g.iss(0, magnitude, ""), g.iss(1, magnitude, ""))
+		// start dates just before the deposit block so that most criteria admit them; distinct, so that
+		// takes span the batches
+		big1 = g.mkBatch(0, p1, tput.Add(-4*time.Hour), tput.AddDate(1, 0, 0), true, nil, "magnitude stream", g.iss(0, magnitude, ""), g.iss(1, magnitude, ""))
+		bigA = g.mkBatch(0, p1, tput.Add(-3*time.Hour), tput.AddDate(1, 0, 0), true, nil, "magnitude stream: 35 significant digits", g.iss(0, big35, ""))
+		bigB = g.mkBatch(0, p1, tput.Add(-2*time.Hour), tput.AddDate(1, 0, 0), true, nil, "magnitude stream: 40 significant digits", g.iss(0, big40, ""))
+		bigC = g.mkBatch(0, p1, tput.Add(-time.Hour), tput.AddDate(1, 0, 0), true, nil, "magnitude stream: 35 nines", g.iss(1, nines35, ""))
 		g.bump("magnitude-issuance")
 	}
 	g.Commit()
@@ -230,8 +245,20 @@ func runBasket(c Cfg) *Result {
 		g.Do(a.MsgBasketPut(d.owner, d.basket, chain.BasketCredit(d.batch, amt)), "put: "+d.note)
 	}
 	if big1 != "" {
+		bd := bks[0].denom
+		no := func(t string) string {
+			return expectNote(false, "C05", "put-minted!=units", t+": amount x 10^6 needs more than 34 significant digits, the tokens cannot be minted exactly")
+		}
+		if bigA != "" && bigB != "" && bigC != "" {
+			g.Do(a.MsgBasketPut(0, bd, chain.BasketCredit(bigA, big35)), no("put of the whole 35-digit amount "+big35))
+			g.Do(a.MsgBasketPut(0, bd, chain.BasketCredit(bigB, big40)), no("put of the whole 40-digit amount "+big40))
+			g.Do(a.MsgBasketPut(1, bd, chain.BasketCredit(bigC, nines35)), no("put of "+nines35))
+			g.Do(a.MsgBasketPut(0, bd, chain.BasketCredit(bigA, big35part)), "put: a 34-digit part of the 35-digit holding")
+			g.Do(a.MsgBasketPut(0, bd, chain.BasketCredit(bigB, big40part)), "put: a 34-digit part of the 40-digit holding")
+			g.bump("magnitude-put-beyond-34-digits")
+		}
 		for _, u := range []int{0, 1} {
-			g.Do(a.MsgBasketPut(u, bks[0].denom, chain.BasketCredit(big1, magnitude)), "put: magnitude stream "+magnitude)
+			g.Do(a.MsgBasketPut(u, bd, chain.BasketCredit(big1, magnitude)), "put: magnitude stream "+magnitude+" (basket total beyond 34 digits)")
 			g.bump("magnitude-put")
 		}
 	}
